@@ -12,7 +12,7 @@ mpz_tdiv_r in temporary space), and mpf/urandomb.c on an mpf destination (a bloc
 `nlimbs <= PREC + 1` keeps `_gmp_rand`, the in-place shift and the strip loop inside it; op `as4_mpf_urandomb` with the Mersenne Twister model of C19)
 in lean/Mpir/Model/AllocSafeMpz4.lean; mpz/sqrt.c (fresh block of (op_size + 1) / 2 limbs / temporary copy when root is op; its `free_me`
 arm proved dead); the two-destination functions mpz/tdiv_qr.c and mpz/sqrtrem.c (statement shape `Safe2`: both outputs well formed, every other
-variable untouched); mpz/set_d.c (`_mpz_realloc (r, rn)`, zero fill + the two limbs of the double; value = C11's `Conv.mpz_set_d`).  Ops `as4_*`
+variable untouched); mpz/set_d.c (`_mpz_realloc (r, rn)`, zero fill + the two limbs of the double; value = C11's `Conv.mpz_set_d`); mpq/inv.c (blocks exchanged in place; `_mpz_realloc` after the size stores).  Ops `as4_*`
 (harness/ops_allocsafe4.c) run the real function on objects of the GIVEN allocations in every alias mode and compare ALLOC(w), SIZ(w)
 and the value with the model's run."""
 from genlib import *
@@ -29,6 +29,7 @@ THEOREMS = ["Mpir.AllocSafe." + t for t in (
     "Spec.tdiv_q_spec", "Spec.tdiv_r_spec", "copyIfSame_spec",
     "mpf_urandomb_dest_safe", "mpf_urandomb_seeded_overruns", "mpf_urandomb_fin_spec",
     "mpz_tdiv_qr_alloc_safe", "tdiv_qr_refines", "Grown.owf",
+    "mpq_inv_alloc_safe", "mpq_inv_inplace", "mpq_inv_distinct", "MPZ_REALLOC_grown2",
     "mpz_set_d_alloc_safe", "set_d_refines", "extract_double_limbs",
     "mpz_sqrtrem_alloc_safe", "sqrtrem_refines", "sqrtremTail_refines", "Spec.sqrtrem_rem_spec",
     "mpz_sqrt_alloc_safe", "mpz_sqrt_free_me_dead", "sqrt_refines", "Spec.sqrt_spec", "sqrtTail_refines")]
